@@ -1,1 +1,1387 @@
-fn main(){ let s: syn::File = syn::parse_str("fn a(){}").unwrap(); println!("{}", s.items.len()); let sp = proc_macro2::Span::call_site(); let _ = sp.byte_range(); }
+//! vx — mechanical extractor: takes the *source text* of named items from /repo by syn span,
+//! applies only the numbered rules of DESIGN.md §3.1 (A1–A5 annotations from the sidecar,
+//! D1–D3 drops, L1–L9 lowerings) and emits one single-file Verus unit plus a JSON description
+//! of exactly what was copied, dropped, rewritten and inserted.
+//!
+//! exit 0: unit written; exit 2: undecided (item/anchor not found, lowering count mismatch …).
+
+use proc_macro2::Span;
+use regex::Regex;
+use serde::Deserialize;
+use serde_json::json;
+use std::collections::BTreeMap;
+use syn::spanned::Spanned;
+use syn::visit::Visit;
+
+// ---------------------------------------------------------------- sidecar format
+
+#[derive(Deserialize, Clone, Debug)]
+#[serde(untagged)]
+enum Clause {
+	Plain(String),
+	Full {
+		#[serde(default)]
+		label: Option<String>,
+		#[serde(default)]
+		props: Option<Vec<String>>,
+		clause: String,
+		/// "restricted": only emitted in restricted mode (region guard for a known finding);
+		/// "full": only emitted in full mode
+		#[serde(default)]
+		mode: Option<String>,
+	},
+}
+
+#[derive(Deserialize, Clone, Debug, Default)]
+struct LoopCfg {
+	ordinal: usize,
+	#[serde(default)]
+	binder: Option<String>,
+	#[serde(default)]
+	invariant: Vec<Clause>,
+	#[serde(default)]
+	invariant_except_break: Vec<Clause>,
+	#[serde(default)]
+	ensures: Vec<Clause>,
+	#[serde(default)]
+	decreases: Option<String>,
+}
+
+#[derive(Deserialize, Clone, Debug, Default)]
+struct ClosureCfg {
+	ordinal: usize,
+	#[serde(default)]
+	params: Option<String>,
+	#[serde(default)]
+	ret: Option<String>,
+	#[serde(default)]
+	requires: Vec<Clause>,
+	#[serde(default)]
+	ensures: Vec<Clause>,
+}
+
+#[derive(Deserialize, Clone, Debug, Default)]
+struct ProofCfg {
+	/// statement whose whitespace-normalised source text starts with this prefix
+	#[serde(default)]
+	stmt_prefix: Option<String>,
+	#[serde(default)]
+	nth: Option<usize>,
+	/// loop ordinal (with pos = body_start | body_end | before | after)
+	#[serde(default, rename = "loop")]
+	loop_: Option<usize>,
+	/// before | after | fn_start | fn_end | body_start | body_end
+	pos: String,
+	text: String,
+	#[serde(default)]
+	mode: Option<String>,
+}
+
+#[derive(Deserialize, Clone, Debug, Default)]
+struct ReplaceCfg {
+	rule: String,
+	pattern: String,
+	with: String,
+	#[serde(default)]
+	count: Option<usize>,
+	#[serde(default)]
+	min: Option<usize>,
+}
+
+#[derive(Deserialize, Clone, Debug, Default)]
+struct FnCfg {
+	#[serde(default)]
+	attrs: Vec<String>,
+	#[serde(default)]
+	ret: Option<String>,
+	#[serde(default)]
+	requires: Vec<Clause>,
+	#[serde(default)]
+	ensures: Vec<Clause>,
+	#[serde(default)]
+	decreases: Option<String>,
+	#[serde(default, rename = "loop")]
+	loops: Vec<LoopCfg>,
+	#[serde(default, rename = "closure")]
+	closures: Vec<ClosureCfg>,
+	#[serde(default, rename = "proof")]
+	proofs: Vec<ProofCfg>,
+	#[serde(default)]
+	replace: Vec<ReplaceCfg>,
+	/// properties to which implicit safety obligations of this function are attributed
+	#[serde(default)]
+	safety_props: Option<Vec<String>>,
+	/// no canary for this fn (e.g. spec-less helper)
+	#[serde(default)]
+	no_canary: bool,
+}
+
+#[derive(Deserialize, Clone, Debug)]
+struct ItemCfg {
+	file: String,
+	path: String,
+	#[serde(default)]
+	attrs: Vec<String>,
+	/// explicit derive list for a struct/enum (replaces the mechanical intersection)
+	#[serde(default)]
+	derive: Option<Vec<String>>,
+	/// for structs/enums: do not emit the assumed Clone impl
+	#[serde(default)]
+	no_clone_spec: bool,
+	#[serde(default, rename = "fn")]
+	fns: BTreeMap<String, FnCfg>,
+	#[serde(default)]
+	replace: Vec<ReplaceCfg>,
+	/// closure unit: `closure N in fn X` emits the closure as a named fn with this header
+	#[serde(default)]
+	closure_as_fn: Option<String>,
+}
+
+#[derive(Deserialize, Clone, Debug)]
+struct UnitCfg {
+	unit: String,
+	properties: Vec<String>,
+	#[serde(default)]
+	prelude: Vec<String>,
+	#[serde(default)]
+	spec: String,
+	#[serde(default)]
+	tail: String,
+	#[serde(default)]
+	item: Vec<ItemCfg>,
+}
+
+impl Clause {
+	fn text(&self) -> &str {
+		match self {
+			Clause::Plain(s) => s,
+			Clause::Full { clause, .. } => clause,
+		}
+	}
+	fn label(&self) -> Option<String> {
+		match self {
+			Clause::Plain(_) => None,
+			Clause::Full { label, .. } => label.clone(),
+		}
+	}
+	fn props(&self) -> Option<Vec<String>> {
+		match self {
+			Clause::Plain(_) => None,
+			Clause::Full { props, .. } => props.clone(),
+		}
+	}
+	fn active(&self, mode: &str) -> bool {
+		match self {
+			Clause::Plain(_) => true,
+			Clause::Full { mode: None, .. } => true,
+			Clause::Full { mode: Some(m), .. } => m == mode,
+		}
+	}
+}
+
+// ---------------------------------------------------------------- edit engine
+
+#[derive(Clone, Debug)]
+enum Part {
+	Text(String),
+	Src(usize, usize),
+	/// records the output position of an annotation clause
+	Mark(usize),
+}
+
+#[derive(Clone, Debug)]
+struct Edit {
+	start: usize,
+	end: usize,
+	parts: Vec<Part>,
+	rule: String,
+	seq: usize,
+}
+
+#[derive(Clone, Debug)]
+struct MarkInfo {
+	kind: String, // requires | ensures | invariant | decreases | closure_ensures | closure_requires | canary
+	func: String,
+	label: Option<String>,
+	props: Option<Vec<String>>,
+	text: String,
+	out_start: usize,
+	out_end: usize,
+}
+
+struct Out {
+	buf: String,
+	/// verbatim segments: (out_start, out_end, src_file_index, src_start)
+	segs: Vec<(usize, usize, usize, usize)>,
+	marks: Vec<MarkInfo>,
+}
+
+struct Renderer<'s> {
+	src: &'s str,
+	file_idx: usize,
+	edits: Vec<Edit>,
+	done: Vec<bool>,
+}
+
+impl<'s> Renderer<'s> {
+	fn new(src: &'s str, file_idx: usize, mut edits: Vec<Edit>) -> Self {
+		edits.sort_by(|a, b| {
+			a.start
+				.cmp(&b.start)
+				.then((a.end == a.start).cmp(&(b.end == b.start)).reverse())
+				.then(b.end.cmp(&a.end))
+				.then(a.seq.cmp(&b.seq))
+		});
+		let n = edits.len();
+		Renderer {
+			src,
+			file_idx,
+			edits,
+			done: vec![false; n],
+		}
+	}
+
+	fn render(&mut self, lo: usize, hi: usize, out: &mut Out, top: bool) {
+		let mut cursor = lo;
+		let mut i = 0;
+		while i < self.edits.len() {
+			let (s, e) = (self.edits[i].start, self.edits[i].end);
+			if self.done[i] || s < cursor || s < lo {
+				i += 1;
+				continue;
+			}
+			if s > hi || e > hi {
+				i += 1;
+				continue;
+			}
+			// zero-length edits at the very end of a nested range belong to the outer range
+			if s == hi && e == hi && !top && s != lo {
+				i += 1;
+				continue;
+			}
+			self.done[i] = true;
+			self.copy(cursor, s, out);
+			let parts = self.edits[i].parts.clone();
+			for p in parts {
+				match p {
+					Part::Text(t) => out.buf.push_str(&t),
+					Part::Src(a, b) => self.render(a, b, out, false),
+					Part::Mark(id) => {
+						if out.marks[id].out_start == usize::MAX {
+							out.marks[id].out_start = out.buf.len();
+						} else {
+							out.marks[id].out_end = out.buf.len();
+						}
+					}
+				}
+			}
+			cursor = e;
+			i += 1;
+		}
+		self.copy(cursor, hi, out);
+	}
+
+	fn copy(&self, a: usize, b: usize, out: &mut Out) {
+		if b > a {
+			let os = out.buf.len();
+			out.buf.push_str(&self.src[a..b]);
+			out.segs.push((os, out.buf.len(), self.file_idx, a));
+		}
+	}
+}
+
+fn br(sp: Span) -> (usize, usize) {
+	let r = sp.byte_range();
+	(r.start, r.end)
+}
+
+fn die(msg: &str) -> ! {
+	eprintln!("vx: UNDECIDED: {}", msg);
+	std::process::exit(2);
+}
+
+// ---------------------------------------------------------------- generic rules (visitor)
+
+const LOG_MACROS: &[&str] = &[
+	"debug", "trace", "info", "warn", "error", "println", "eprintln", "print",
+];
+
+struct FnVisitor<'c> {
+	src: &'c str,
+	fname: String,
+	cfg: &'c FnCfg,
+	mode: &'c str,
+	edits: Vec<Edit>,
+	marks: Vec<MarkInfo>,
+	mark_base: usize,
+	loop_ord: usize,
+	closure_ord: usize,
+	rules: BTreeMap<String, usize>,
+	dropped_calls: Vec<String>,
+	seq: usize,
+	loops_seen: Vec<(usize, usize, usize, usize)>, // ordinal, whole start, body open brace start, whole end
+	loop_bodies: Vec<(usize, usize, usize)>,       // ordinal, after-open-brace, close-brace start
+	stmts: Vec<(usize, usize)>,
+	strip_async: bool,
+}
+
+impl<'c> FnVisitor<'c> {
+	fn push(&mut self, start: usize, end: usize, parts: Vec<Part>, rule: &str) {
+		*self.rules.entry(rule.to_string()).or_insert(0) += 1;
+		self.seq += 1;
+		self.edits.push(Edit {
+			start,
+			end,
+			parts,
+			rule: rule.to_string(),
+			seq: self.seq,
+		});
+	}
+	fn mark(
+		&mut self,
+		kind: &str,
+		label: Option<String>,
+		props: Option<Vec<String>>,
+		text: &str,
+	) -> usize {
+		self.marks.push(MarkInfo {
+			kind: kind.to_string(),
+			func: self.fname.clone(),
+			label,
+			props,
+			text: text.to_string(),
+			out_start: usize::MAX,
+			out_end: usize::MAX,
+		});
+		self.mark_base + self.marks.len() - 1
+	}
+	fn clause_parts(&mut self, kw: &str, kind: &str, clauses: &[Clause], indent: &str) -> Vec<Part> {
+		let mut parts = vec![];
+		let act: Vec<&Clause> = clauses.iter().filter(|c| c.active(self.mode)).collect();
+		if act.is_empty() {
+			return parts;
+		}
+		parts.push(Part::Text(format!("\n{}{}\n", indent, kw)));
+		for c in act {
+			let id = self.mark(kind, c.label(), c.props(), c.text());
+			parts.push(Part::Text(format!("{}    ", indent)));
+			parts.push(Part::Mark(id));
+			parts.push(Part::Text(oneline(c.text())));
+			parts.push(Part::Mark(id));
+			parts.push(Part::Text(",\n".to_string()));
+		}
+		parts
+	}
+	fn scan_calls(&mut self, ts: &proc_macro2::TokenStream, what: &str) {
+		// names followed by '(' inside dropped macro arguments: reported as assumptions
+		let toks: Vec<proc_macro2::TokenTree> = ts.clone().into_iter().collect();
+		for (i, t) in toks.iter().enumerate() {
+			match t {
+				proc_macro2::TokenTree::Ident(id) => {
+					if let Some(proc_macro2::TokenTree::Group(g)) = toks.get(i + 1) {
+						if g.delimiter() == proc_macro2::Delimiter::Parenthesis {
+							self.dropped_calls.push(format!("{}:{}", what, id));
+						}
+					}
+				}
+				proc_macro2::TokenTree::Group(g) => self.scan_calls(&g.stream(), what),
+				_ => {}
+			}
+		}
+	}
+	fn handle_macro(&mut self, mac: &syn::Macro, whole: (usize, usize), is_stmt: bool) {
+		let name = mac
+			.path
+			.segments
+			.last()
+			.map(|s| s.ident.to_string())
+			.unwrap_or_default();
+		if LOG_MACROS.contains(&name.as_str()) {
+			self.scan_calls(&mac.tokens, &name);
+			let rep = if is_stmt { "" } else { "()" };
+			self.push(whole.0, whole.1, vec![Part::Text(rep.to_string())], "D2");
+		} else if name == "format" {
+			self.scan_calls(&mac.tokens, "format");
+			self.push(
+				whole.0,
+				whole.1,
+				vec![Part::Text("vf_format()".to_string())],
+				"L1",
+			);
+		} else if name == "assert" || name == "debug_assert" {
+			// first argument only (message args dropped)
+			let args = split_top_commas(&mac.tokens);
+			if args.is_empty() {
+				die("assert! without arguments");
+			}
+			let (a, b) = args[0];
+			let semi = if is_stmt { ";" } else { "" };
+			self.push(
+				whole.0,
+				whole.1,
+				vec![
+					Part::Text("vf_assert(".to_string()),
+					Part::Src(a, b),
+					Part::Text(format!("){}", semi)),
+				],
+				"L9",
+			);
+		} else if name == "assert_eq" || name == "assert_ne" {
+			let args = split_top_commas(&mac.tokens);
+			if args.len() < 2 {
+				die("assert_eq! with <2 arguments");
+			}
+			let op = if name == "assert_eq" { "==" } else { "!=" };
+			let semi = if is_stmt { ";" } else { "" };
+			self.push(
+				whole.0,
+				whole.1,
+				vec![
+					Part::Text("vf_assert((".to_string()),
+					Part::Src(args[0].0, args[0].1),
+					Part::Text(format!(") {} (", op)),
+					Part::Src(args[1].0, args[1].1),
+					Part::Text(format!(")){}", semi)),
+				],
+				"L9",
+			);
+		} else if name == "unreachable" || name == "panic" || name == "unimplemented" || name == "todo" {
+			self.scan_calls(&mac.tokens, &name);
+			let semi = if is_stmt { ";" } else { "" };
+			self.push(
+				whole.0,
+				whole.1,
+				vec![Part::Text(if is_stmt { "vf_unreachable::<()>();".to_string() } else { format!("vf_unreachable(){}", semi) })],
+				"L9",
+			);
+		} else if name == "matches" {
+			let args = split_top_commas(&mac.tokens);
+			if args.len() != 2 {
+				die("matches! with != 2 arguments (guards unsupported)");
+			}
+			self.push(
+				whole.0,
+				whole.1,
+				vec![
+					Part::Text("(match ".to_string()),
+					Part::Src(args[0].0, args[0].1),
+					Part::Text(" { ".to_string()),
+					Part::Src(args[1].0, args[1].1),
+					Part::Text(" => true, _ => false })".to_string()),
+				],
+				"L7",
+			);
+		}
+		// vec! and anything else: left verbatim (Verus decides)
+	}
+}
+
+fn oneline(s: &str) -> String {
+	s.split_whitespace().collect::<Vec<_>>().join(" ")
+}
+
+/// byte ranges of the top-level comma-separated arguments of a macro token stream
+fn split_top_commas(ts: &proc_macro2::TokenStream) -> Vec<(usize, usize)> {
+	let mut out = vec![];
+	let mut cur: Option<(usize, usize)> = None;
+	for t in ts.clone() {
+		let is_comma = matches!(&t, proc_macro2::TokenTree::Punct(p) if p.as_char() == ',');
+		if is_comma {
+			if let Some(c) = cur.take() {
+				out.push(c);
+			}
+		} else {
+			let (a, b) = br(t.span());
+			cur = Some(match cur {
+				None => (a, b),
+				Some((s, _)) => (s, b),
+			});
+		}
+	}
+	if let Some(c) = cur {
+		out.push(c);
+	}
+	out
+}
+
+impl<'ast, 'c> Visit<'ast> for FnVisitor<'c> {
+	fn visit_attribute(&mut self, a: &'ast syn::Attribute) {
+		let (s, e) = br(a.span());
+		self.push(s, e, vec![], "D1");
+	}
+	fn visit_stmt(&mut self, st: &'ast syn::Stmt) {
+		let (s, e) = br(st.span());
+		self.stmts.push((s, e));
+		if let syn::Stmt::Macro(sm) = st {
+			for a in &sm.attrs {
+				self.visit_attribute(a);
+			}
+			self.handle_macro(&sm.mac, (s, e), true);
+			return;
+		}
+		syn::visit::visit_stmt(self, st);
+	}
+	fn visit_expr_macro(&mut self, em: &'ast syn::ExprMacro) {
+		let (s, e) = br(em.span());
+		self.handle_macro(&em.mac, (s, e), false);
+	}
+	fn visit_expr_await(&mut self, ea: &'ast syn::ExprAwait) {
+		if self.strip_async {
+			let (_, bs) = br(ea.base.span());
+			let (_, e) = br(ea.span());
+			self.push(bs, e, vec![], "D3");
+		}
+		syn::visit::visit_expr_await(self, ea);
+	}
+	fn visit_expr_for_loop(&mut self, fl: &'ast syn::ExprForLoop) {
+		self.loop_ord += 1;
+		let ord = self.loop_ord;
+		let (ws, we) = br(fl.span());
+		let (bs, be) = br(fl.body.span());
+		self.loops_seen.push((ord, ws, bs, we));
+		self.loop_bodies.push((ord, bs + 1, be - 1));
+		let cfg = self.cfg.loops.iter().find(|l| l.ordinal == ord).cloned();
+		if let Some(lc) = cfg {
+			if let Some(b) = &lc.binder {
+				let (es, _) = br(fl.expr.span());
+				self.push(es, es, vec![Part::Text(format!("{}: ", b))], "A2");
+			}
+			let mut parts = self.clause_parts("invariant", "invariant", &lc.invariant, "        ");
+			if let Some(d) = &lc.decreases {
+				parts.push(Part::Text(format!("\n        decreases {},\n", d)));
+			}
+			if !parts.is_empty() {
+				parts.push(Part::Text("    ".to_string()));
+				self.push(bs, bs, parts, "A2");
+			}
+		}
+		syn::visit::visit_expr_for_loop(self, fl);
+	}
+	fn visit_expr_while(&mut self, wl: &'ast syn::ExprWhile) {
+		self.loop_ord += 1;
+		let ord = self.loop_ord;
+		let (ws, we) = br(wl.span());
+		let (bs, be) = br(wl.body.span());
+		self.loops_seen.push((ord, ws, bs, we));
+		self.loop_bodies.push((ord, bs + 1, be - 1));
+		let cfg = self.cfg.loops.iter().find(|l| l.ordinal == ord).cloned();
+		if let Some(lc) = cfg {
+			let mut parts = self.clause_parts("invariant", "invariant", &lc.invariant, "        ");
+			parts.extend(self.clause_parts(
+				"invariant_except_break",
+				"invariant",
+				&lc.invariant_except_break,
+				"        ",
+			));
+			parts.extend(self.clause_parts("ensures", "invariant", &lc.ensures, "        "));
+			if let Some(d) = &lc.decreases {
+				parts.push(Part::Text(format!("\n        decreases {},\n", d)));
+			}
+			if !parts.is_empty() {
+				parts.push(Part::Text("    ".to_string()));
+				self.push(bs, bs, parts, "A2");
+			}
+		}
+		syn::visit::visit_expr_while(self, wl);
+	}
+	fn visit_expr_loop(&mut self, l: &'ast syn::ExprLoop) {
+		self.loop_ord += 1;
+		let ord = self.loop_ord;
+		let (ws, we) = br(l.span());
+		let (bs, be) = br(l.body.span());
+		self.loops_seen.push((ord, ws, bs, we));
+		self.loop_bodies.push((ord, bs + 1, be - 1));
+		let cfg = self.cfg.loops.iter().find(|x| x.ordinal == ord).cloned();
+		if let Some(lc) = cfg {
+			let mut parts = self.clause_parts("invariant", "invariant", &lc.invariant, "        ");
+			parts.extend(self.clause_parts(
+				"invariant_except_break",
+				"invariant",
+				&lc.invariant_except_break,
+				"        ",
+			));
+			parts.extend(self.clause_parts("ensures", "invariant", &lc.ensures, "        "));
+			if let Some(d) = &lc.decreases {
+				parts.push(Part::Text(format!("\n        decreases {},\n", d)));
+			}
+			if !parts.is_empty() {
+				parts.push(Part::Text("    ".to_string()));
+				self.push(bs, bs, parts, "A2");
+			}
+		}
+		syn::visit::visit_expr_loop(self, l);
+	}
+	fn visit_expr_closure(&mut self, c: &'ast syn::ExprClosure) {
+		self.closure_ord += 1;
+		let ord = self.closure_ord;
+		let cfg = self.cfg.closures.iter().find(|x| x.ordinal == ord).cloned();
+		if let Some(cc) = cfg {
+			let (o1, _) = br(c.or1_token.span());
+			let (_, o2) = br(c.or2_token.span());
+			if let Some(p) = &cc.params {
+				self.push(o1, o2, vec![Part::Text(p.clone())], "A3");
+			}
+			let mut parts = vec![];
+			if let Some(r) = &cc.ret {
+				parts.push(Part::Text(format!(" -> {}", r)));
+			}
+			parts.extend(self.clause_parts("requires", "closure_requires", &cc.requires, "            "));
+			parts.extend(self.clause_parts("ensures", "closure_ensures", &cc.ensures, "            "));
+			let (bs, be) = br(c.body.span());
+			let is_block = matches!(&*c.body, syn::Expr::Block(_));
+			// the annotation goes right after the closing `|` (or after an existing `-> T`)
+			let ins = match &c.output {
+				syn::ReturnType::Default => o2,
+				syn::ReturnType::Type(_, t) => br(t.span()).1,
+			};
+			if !is_block {
+				parts.push(Part::Text(" { ".to_string()));
+				self.push(ins, ins, parts, "A3");
+				self.push(be, be, vec![Part::Text(" }".to_string())], "A3");
+				let _ = bs;
+			} else {
+				parts.push(Part::Text(" ".to_string()));
+				self.push(ins, ins, parts, "A3");
+			}
+		}
+		syn::visit::visit_expr_closure(self, c);
+	}
+}
+
+// ---------------------------------------------------------------- item lookup
+
+fn norm(s: &str) -> String {
+	s.chars().filter(|c| !c.is_whitespace()).collect()
+}
+
+fn type_last_ident(t: &syn::Type) -> String {
+	match t {
+		syn::Type::Path(p) => p
+			.path
+			.segments
+			.last()
+			.map(|s| s.ident.to_string())
+			.unwrap_or_default(),
+		syn::Type::Reference(r) => type_last_ident(&r.elem),
+		_ => String::new(),
+	}
+}
+
+enum Found<'a> {
+	Fn(&'a syn::ItemFn),
+	Struct(&'a syn::ItemStruct),
+	Enum(&'a syn::ItemEnum),
+	Const(&'a syn::ItemConst),
+	Type(&'a syn::ItemType),
+	Impl(&'a syn::ItemImpl, Option<Vec<String>>),
+	Macro(&'a syn::ItemMacro),
+}
+
+fn find_item<'a>(items: &'a [syn::Item], path: &str) -> Option<Found<'a>> {
+	let path = path.trim();
+	let (head, sel) = match path.find("::") {
+		Some(i) if path.starts_with("impl ") => (path[..i].trim(), Some(path[i + 2..].trim())),
+		_ => (path, None),
+	};
+	let words: Vec<&str> = head.split_whitespace().collect();
+	for it in items {
+		match (words.as_slice(), it) {
+			(["fn", n], syn::Item::Fn(f)) if f.sig.ident == n => return Some(Found::Fn(f)),
+			(["struct", n], syn::Item::Struct(s)) if s.ident == n => return Some(Found::Struct(s)),
+			(["enum", n], syn::Item::Enum(s)) if s.ident == n => return Some(Found::Enum(s)),
+			(["const", n], syn::Item::Const(s)) if s.ident == n => return Some(Found::Const(s)),
+			(["type", n], syn::Item::Type(s)) if s.ident == n => return Some(Found::Type(s)),
+			(["macro", n], syn::Item::Macro(m))
+				if m.ident.as_ref().map(|i| i == n).unwrap_or(false) =>
+			{
+				return Some(Found::Macro(m))
+			}
+			(["impl", ty], syn::Item::Impl(i))
+				if i.trait_.is_none() && type_last_ident(&i.self_ty) == *ty =>
+			{
+				let methods = sel.map(parse_sel);
+				// an inherent impl is only a match if it contains every selected method
+				if let Some(ms) = &methods {
+					let has_all = ms.iter().all(|m| {
+						i.items.iter().any(|ii| matches!(ii, syn::ImplItem::Fn(f) if f.sig.ident == m))
+					});
+					if !has_all {
+						continue;
+					}
+				}
+				return Some(Found::Impl(i, methods));
+			}
+			(["impl", tr, "for", ty], syn::Item::Impl(i)) => {
+				if let Some((_, p, _)) = &i.trait_ {
+					let tn = norm(&quote::quote!(#p).to_string());
+					let tl = p.segments.last().map(|s| s.ident.to_string()).unwrap_or_default();
+					let self_n = norm(&{
+						let t = &i.self_ty;
+						quote::quote!(#t).to_string()
+					});
+					if (tn == norm(tr) || tl == *tr)
+						&& (self_n == norm(ty) || type_last_ident(&i.self_ty) == *ty)
+					{
+						return Some(Found::Impl(i, sel.map(parse_sel)));
+					}
+				}
+			}
+			_ => {}
+		}
+	}
+	// descend into inline modules
+	for it in items {
+		if let syn::Item::Mod(m) = it {
+			if let Some((_, sub)) = &m.content {
+				if let Some(f) = find_item(sub, path) {
+					return Some(f);
+				}
+			}
+		}
+	}
+	None
+}
+
+fn parse_sel(s: &str) -> Vec<String> {
+	let s = s.trim().trim_start_matches("fn").trim();
+	s.split(',').map(|x| x.trim().to_string()).filter(|x| !x.is_empty()).collect()
+}
+
+// ---------------------------------------------------------------- per-item rendering
+
+struct Ctx<'a> {
+	mode: &'a str,
+	canary: bool,
+	out: Out,
+	rules: BTreeMap<String, usize>,
+	dropped_calls: Vec<String>,
+	items_meta: Vec<serde_json::Value>,
+	files: Vec<String>,
+	tok_verbatim: usize,
+	tok_src_total: usize,
+	fn_meta: Vec<serde_json::Value>,
+}
+
+fn count_tokens(s: &str) -> usize {
+	// lexical tokens by proc_macro2 where the text lexes, otherwise words
+	match s.parse::<proc_macro2::TokenStream>() {
+		Ok(ts) => count_ts(ts),
+		Err(_) => s.split_whitespace().count(),
+	}
+}
+fn count_ts(ts: proc_macro2::TokenStream) -> usize {
+	let mut n = 0;
+	for t in ts {
+		match t {
+			proc_macro2::TokenTree::Group(g) => n += 2 + count_ts(g.stream()),
+			_ => n += 1,
+		}
+	}
+	n
+}
+
+fn apply_replaces(src: &str, lo: usize, hi: usize, reps: &[ReplaceCfg], edits: &mut Vec<Edit>, rules: &mut BTreeMap<String, usize>, seq: &mut usize) {
+	for r in reps {
+		let re = Regex::new(&r.pattern).unwrap_or_else(|e| die(&format!("bad regex {}: {}", r.pattern, e)));
+		let text = &src[lo..hi];
+		let mut n = 0;
+		for caps in re.captures_iter(text) {
+			let m = caps.get(0).unwrap();
+			n += 1;
+			// template: $1..$9 → Src(group)
+			let mut parts = vec![];
+			let mut rest = r.with.as_str();
+			while let Some(i) = rest.find('$') {
+				let d = rest[i + 1..].chars().next();
+				if let Some(dc) = d {
+					if dc.is_ascii_digit() {
+						let gi = dc.to_digit(10).unwrap() as usize;
+						parts.push(Part::Text(rest[..i].to_string()));
+						if let Some(g) = caps.get(gi) {
+							parts.push(Part::Src(lo + g.start(), lo + g.end()));
+						}
+						rest = &rest[i + 2..];
+						continue;
+					}
+				}
+				parts.push(Part::Text(rest[..i + 1].to_string()));
+				rest = &rest[i + 1..];
+			}
+			parts.push(Part::Text(rest.to_string()));
+			*seq += 1;
+			*rules.entry(r.rule.clone()).or_insert(0) += 1;
+			edits.push(Edit {
+				start: lo + m.start(),
+				end: lo + m.end(),
+				parts,
+				rule: r.rule.clone(),
+				seq: *seq,
+			});
+		}
+		if let Some(c) = r.count {
+			if n != c {
+				die(&format!("lowering {} pattern /{}/ matched {} times, expected {}", r.rule, r.pattern, n, c));
+			}
+		}
+		if let Some(c) = r.min {
+			if n < c {
+				die(&format!("lowering {} pattern /{}/ matched {} times, expected >= {}", r.rule, r.pattern, n, c));
+			}
+		}
+	}
+}
+
+const GHOST_PREFIXES: &[&str] = &["proof {", "proof{", "let ghost ", "let tracked ", "assert(", "assert "];
+
+#[allow(clippy::too_many_arguments)]
+fn fn_edits(
+	ctx: &mut Ctx,
+	src: &str,
+	name: &str,
+	attrs: &[syn::Attribute],
+	sig: &syn::Signature,
+	block: &syn::Block,
+	cfg: &FnCfg,
+	item_reps: &[ReplaceCfg],
+	whole: (usize, usize),
+	edits: &mut Vec<Edit>,
+	in_trait_impl: bool,
+) {
+	let mark_base = ctx.out.marks.len();
+	let mut v = FnVisitor {
+		src,
+		fname: name.to_string(),
+		cfg,
+		mode: ctx.mode,
+		edits: vec![],
+		marks: vec![],
+		mark_base,
+		loop_ord: 0,
+		closure_ord: 0,
+		rules: BTreeMap::new(),
+		dropped_calls: vec![],
+		seq: edits.len() * 1000,
+		loops_seen: vec![],
+		loop_bodies: vec![],
+		stmts: vec![],
+		strip_async: sig.asyncness.is_some(),
+	};
+	for a in attrs {
+		v.visit_attribute(a);
+	}
+	// D3: async fn → fn
+	if let Some(a) = &sig.asyncness {
+		let (s, e) = br(a.span());
+		v.push(s, e, vec![], "D3");
+	}
+	// attributes on parameters
+	for inp in &sig.inputs {
+		match inp {
+			syn::FnArg::Typed(pt) => {
+				for a in &pt.attrs {
+					v.visit_attribute(a);
+				}
+			}
+			syn::FnArg::Receiver(r) => {
+				for a in &r.attrs {
+					v.visit_attribute(a);
+				}
+			}
+		}
+	}
+	// A5 attributes
+	let mut attr_text = String::new();
+	for a in &cfg.attrs {
+		attr_text.push_str(&format!("#[{}]\n", a));
+	}
+	if !attr_text.is_empty() {
+		v.push(whole.0, whole.0, vec![Part::Text(attr_text)], "A5");
+	}
+	// A1 result name
+	let resname = cfg.ret.clone().unwrap_or_else(|| "res".to_string());
+	if let syn::ReturnType::Type(_, ty) = &sig.output {
+		let (s, e) = br(ty.span());
+		v.push(
+			s,
+			e,
+			vec![
+				Part::Text(format!("({}: ", resname)),
+				Part::Src(s, e),
+				Part::Text(")".to_string()),
+			],
+			"A1",
+		);
+	}
+	// A1 contract before the body
+	let (bs, be) = br(block.span());
+	let mut parts = vec![];
+	if !in_trait_impl {
+		parts.extend(v.clause_parts("requires", "requires", &cfg.requires, "    "));
+	} else if !cfg.requires.is_empty() {
+		die(&format!("{}: requires on a trait impl method is not allowed", name));
+	}
+	let mut ens = cfg.ensures.clone();
+	if ctx.canary && !cfg.no_canary {
+		ens.push(Clause::Full {
+			label: Some("__canary".to_string()),
+			props: None,
+			clause: "false".to_string(),
+			mode: None,
+		});
+	}
+	parts.extend(v.clause_parts("ensures", "ensures", &ens, "    "));
+	if let Some(d) = &cfg.decreases {
+		parts.push(Part::Text(format!("\n    decreases {},\n", d)));
+	}
+	if !parts.is_empty() {
+		v.push(bs, bs, parts, "A1");
+	}
+	v.visit_block(block);
+
+	// A4 proof insertions
+	for p in &cfg.proofs {
+		if let Some(m) = &p.mode {
+			if m != ctx.mode {
+				continue;
+			}
+		}
+		let t = p.text.trim();
+		if !GHOST_PREFIXES.iter().any(|g| t.starts_with(g)) {
+			die(&format!("{}: inserted text must be ghost (proof/let ghost/assert): {}", name, t));
+		}
+		let pos = if let Some(pref) = &p.stmt_prefix {
+			let want = oneline(pref);
+			let nth = p.nth.unwrap_or(1);
+			let mut hits: Vec<(usize, usize)> = v
+				.stmts
+				.iter()
+				.filter(|(s, e)| oneline(&src[*s..*e]).starts_with(&want))
+				.cloned()
+				.collect();
+			hits.sort();
+			if hits.len() < nth {
+				die(&format!("{}: anchor statement `{}` #{} not found", name, pref, nth));
+			}
+			let (s, e) = hits[nth - 1];
+			match p.pos.as_str() {
+				"before" => s,
+				"after" => e,
+				x => die(&format!("bad pos {}", x)),
+			}
+		} else if let Some(lo) = p.loop_ {
+			let l = v.loops_seen.iter().find(|l| l.0 == lo).cloned();
+			let b = v.loop_bodies.iter().find(|l| l.0 == lo).cloned();
+			match (l, b) {
+				(Some(l), Some(b)) => match p.pos.as_str() {
+					"before" => l.1,
+					"after" => l.3,
+					"body_start" => b.1,
+					"body_end" => b.2,
+					x => die(&format!("bad pos {}", x)),
+				},
+				_ => die(&format!("{}: anchor loop {} not found", name, lo)),
+			}
+		} else {
+			match p.pos.as_str() {
+				"fn_start" => bs + 1,
+				"fn_end" => be - 1,
+				x => die(&format!("bad pos {}", x)),
+			}
+		};
+		v.push(pos, pos, vec![Part::Text(format!("\n{}\n", t))], "A4");
+	}
+	// check every configured loop / closure ordinal exists
+	for l in &cfg.loops {
+		if l.ordinal == 0 || l.ordinal > v.loop_ord {
+			die(&format!("{}: loop ordinal {} not found (fn has {})", name, l.ordinal, v.loop_ord));
+		}
+	}
+	for c in &cfg.closures {
+		if c.ordinal == 0 || c.ordinal > v.closure_ord {
+			die(&format!("{}: closure ordinal {} not found (fn has {})", name, c.ordinal, v.closure_ord));
+		}
+	}
+	let mut seq = v.seq + 1;
+	let mut rules = v.rules.clone();
+	let mut all_reps = item_reps.to_vec();
+	all_reps.extend(cfg.replace.iter().cloned());
+	let mut es = v.edits.clone();
+	apply_replaces(src, whole.0, whole.1, &all_reps, &mut es, &mut rules, &mut seq);
+	for (k, n) in rules {
+		*ctx.rules.entry(k).or_insert(0) += n;
+	}
+	ctx.dropped_calls.extend(v.dropped_calls.iter().cloned());
+	ctx.out.marks.extend(v.marks.into_iter());
+	ctx.fn_meta.push(json!({"name": name, "loops": v.loop_ord, "closures": v.closure_ord,
+		"safety_props": cfg.safety_props, "src_range": [whole.0, whole.1]}));
+	edits.extend(es);
+}
+
+fn derive_list(attrs: &[syn::Attribute]) -> Vec<String> {
+	let mut v = vec![];
+	for a in attrs {
+		if a.path().is_ident("derive") {
+			let _ = a.parse_nested_meta(|m| {
+				if let Some(i) = m.path.segments.last() {
+					v.push(i.ident.to_string());
+				}
+				Ok(())
+			});
+		}
+	}
+	v
+}
+
+fn main() {
+	let args: Vec<String> = std::env::args().collect();
+	let mut repo = "/repo".to_string();
+	let mut unit_path = String::new();
+	let mut out_path = String::new();
+	let mut meta_path = String::new();
+	let mut mode = "full".to_string();
+	let mut canary = false;
+	let mut prelude_dir = "/verif/prelude".to_string();
+	let mut i = 1;
+	while i < args.len() {
+		match args[i].as_str() {
+			"--repo" => {
+				repo = args[i + 1].clone();
+				i += 1
+			}
+			"--unit" => {
+				unit_path = args[i + 1].clone();
+				i += 1
+			}
+			"--out" => {
+				out_path = args[i + 1].clone();
+				i += 1
+			}
+			"--meta" => {
+				meta_path = args[i + 1].clone();
+				i += 1
+			}
+			"--mode" => {
+				mode = args[i + 1].clone();
+				i += 1
+			}
+			"--prelude-dir" => {
+				prelude_dir = args[i + 1].clone();
+				i += 1
+			}
+			"--canary" => canary = true,
+			x => die(&format!("unknown arg {}", x)),
+		}
+		i += 1;
+	}
+	let cfg_text = std::fs::read_to_string(&unit_path).unwrap_or_else(|e| die(&format!("{}: {}", unit_path, e)));
+	let cfg: UnitCfg = toml::from_str(&cfg_text).unwrap_or_else(|e| die(&format!("{}: {}", unit_path, e)));
+
+	let mut ctx = Ctx {
+		mode: &mode,
+		canary,
+		out: Out {
+			buf: String::new(),
+			segs: vec![],
+			marks: vec![],
+		},
+		rules: BTreeMap::new(),
+		dropped_calls: vec![],
+		items_meta: vec![],
+		files: vec![],
+		tok_verbatim: 0,
+		tok_src_total: 0,
+		fn_meta: vec![],
+	};
+	ctx.out.buf.push_str(&format!(
+		"// GENERATED by /verif/tools/vx from {} (mode={}{}) — do not edit\n#![allow(unused)]\nuse vstd::prelude::*;\nverus! {{\n",
+		unit_path,
+		mode,
+		if canary { ", canary" } else { "" }
+	));
+	let mut prelude_ranges = vec![];
+	for p in &cfg.prelude {
+		let pp = format!("{}/{}", prelude_dir, p);
+		let t = std::fs::read_to_string(&pp).unwrap_or_else(|e| die(&format!("{}: {}", pp, e)));
+		let s = ctx.out.buf.len();
+		ctx.out.buf.push_str(&format!("// ---- prelude: {}\n", p));
+		ctx.out.buf.push_str(&t);
+		ctx.out.buf.push('\n');
+		prelude_ranges.push(json!({"file": p, "out_start": s, "out_end": ctx.out.buf.len()}));
+	}
+	let spec_start = ctx.out.buf.len();
+	if !cfg.spec.is_empty() {
+		ctx.out.buf.push_str("// ---- unit spec (hand-written: spec fns, lemmas, assumed stubs)\n");
+		ctx.out.buf.push_str(&cfg.spec);
+		ctx.out.buf.push('\n');
+	}
+	let spec_end = ctx.out.buf.len();
+
+	let mut sources: BTreeMap<String, (String, syn::File)> = BTreeMap::new();
+	for it in &cfg.item {
+		if !sources.contains_key(&it.file) {
+			let fp = format!("{}/{}", repo, it.file);
+			let s = std::fs::read_to_string(&fp).unwrap_or_else(|e| die(&format!("{}: {}", fp, e)));
+			let f = syn::parse_file(&s).unwrap_or_else(|e| die(&format!("{}: parse error {}", fp, e)));
+			sources.insert(it.file.clone(), (s, f));
+			ctx.files.push(it.file.clone());
+		}
+	}
+	for it in &cfg.item {
+		let (src, file) = sources.get(&it.file).unwrap();
+		let file_idx = ctx.files.iter().position(|f| *f == it.file).unwrap();
+		let found = find_item(&file.items, &it.path)
+			.unwrap_or_else(|| die(&format!("item `{}` not found in {}", it.path, it.file)));
+		let out_start = ctx.out.buf.len();
+		ctx.out
+			.buf
+			.push_str(&format!("// ---- item: {} :: {}\n", it.file, it.path));
+		let mut edits: Vec<Edit> = vec![];
+		let mut pre = String::new();
+		let mut post = String::new();
+		for a in &it.attrs {
+			pre.push_str(&format!("#[{}]\n", a));
+		}
+		let mut ranges: Vec<(usize, usize)> = vec![];
+		let fn_meta_start = ctx.fn_meta.len();
+		let mut seq = 0usize;
+		let src_span: (usize, usize);
+		match found {
+			Found::Fn(f) => {
+				let whole = br(f.span());
+				src_span = whole;
+				let name = f.sig.ident.to_string();
+				let fc = it.fns.get(&name).cloned().unwrap_or_default();
+				fn_edits(&mut ctx, src, &name, &f.attrs, &f.sig, &f.block, &fc, &it.replace, whole, &mut edits, false);
+				ranges.push(whole);
+			}
+			Found::Impl(im, sel) => {
+				let whole = br(im.span());
+				src_span = whole;
+				for a in &im.attrs {
+					let (s, e) = br(a.span());
+					edits.push(Edit { start: s, end: e, parts: vec![], rule: "D1".into(), seq: 0 });
+					*ctx.rules.entry("D1".into()).or_insert(0) += 1;
+				}
+				let (bo, _) = br(im.brace_token.span.open());
+				let (bc, _) = br(im.brace_token.span.close());
+				// header `impl … {`
+				let hdr_start = im.attrs.last().map(|a| br(a.span()).1).unwrap_or(whole.0);
+				ranges.push((hdr_start, bo + 1));
+				let mut found_names = vec![];
+				for ii in &im.items {
+					match ii {
+						syn::ImplItem::Fn(f) => {
+							let name = f.sig.ident.to_string();
+							if let Some(s) = &sel {
+								if !s.contains(&name) {
+									continue;
+								}
+							}
+							found_names.push(name.clone());
+							let w = br(f.span());
+							let fc = it.fns.get(&name).cloned().unwrap_or_default();
+							fn_edits(&mut ctx, src, &name, &f.attrs, &f.sig, &f.block, &fc, &it.replace, w, &mut edits, im.trait_.is_some());
+							ranges.push(w);
+						}
+						syn::ImplItem::Type(t) if sel.is_none() => ranges.push(br(t.span())),
+						syn::ImplItem::Const(t) if sel.is_none() => ranges.push(br(t.span())),
+						_ => {}
+					}
+				}
+				if let Some(s) = &sel {
+					for n in s {
+						if !found_names.contains(n) {
+							die(&format!("method {} not found in `{}`", n, it.path));
+						}
+					}
+				}
+				ranges.push((bc, bc + 1));
+			}
+			Found::Struct(s) => {
+				let whole = br(s.span());
+				src_span = whole;
+				let ds = it.derive.clone().unwrap_or_default();
+				if !ds.is_empty() {
+					pre.push_str(&format!("#[derive({})]\n", ds.join(", ")));
+				}
+				let d = derive_list(&s.attrs);
+				if d.iter().any(|x| x == "Clone") && !ds.iter().any(|x| x == "Clone") && !it.no_clone_spec {
+					let (ig, tg, wc) = s.generics.split_for_impl();
+					post.push_str(&format!(
+						"// A-clone (assumed): derived Clone returns an equal value\nimpl{} Clone for {}{} {} {{\n    #[verifier::external_body]\n    fn clone(&self) -> (r: Self) ensures r == *self {{ unimplemented!() }}\n}}\n",
+						quote::quote!(#ig), s.ident, quote::quote!(#tg), quote::quote!(#wc)
+					));
+					*ctx.rules.entry("A-clone".into()).or_insert(0) += 1;
+				}
+				for a in &s.attrs {
+					let (x, y) = br(a.span());
+					edits.push(Edit { start: x, end: y, parts: vec![], rule: "D1".into(), seq: 0 });
+					*ctx.rules.entry("D1".into()).or_insert(0) += 1;
+				}
+				for f in s.fields.iter() {
+					for a in &f.attrs {
+						let (x, y) = br(a.span());
+						edits.push(Edit { start: x, end: y, parts: vec![], rule: "D1".into(), seq: 0 });
+						*ctx.rules.entry("D1".into()).or_insert(0) += 1;
+					}
+				}
+				ranges.push(whole);
+			}
+			Found::Enum(s) => {
+				let whole = br(s.span());
+				src_span = whole;
+				let ds = it.derive.clone().unwrap_or_else(|| {
+					let d = derive_list(&s.attrs);
+					let mut keep: Vec<String> = d
+						.iter()
+						.filter(|x| ["Copy", "PartialEq", "Eq"].contains(&x.as_str()))
+						.cloned()
+						.collect();
+					if d.iter().any(|x| x == "Copy") {
+						keep.insert(0, "Clone".into());
+					}
+					if keep.contains(&"PartialEq".to_string()) && keep.contains(&"Eq".to_string()) {
+						keep.push("Structural".into());
+					}
+					keep
+				});
+				if !ds.is_empty() {
+					pre.push_str(&format!("#[derive({})]\n", ds.join(", ")));
+				}
+				let d = derive_list(&s.attrs);
+				if d.iter().any(|x| x == "Clone") && !d.iter().any(|x| x == "Copy") && !it.no_clone_spec {
+					post.push_str(&format!(
+						"// A-clone (assumed): derived Clone returns an equal value\nimpl Clone for {} {{\n    #[verifier::external_body]\n    fn clone(&self) -> (r: Self) ensures r == *self {{ unimplemented!() }}\n}}\n",
+						s.ident
+					));
+					*ctx.rules.entry("A-clone".into()).or_insert(0) += 1;
+				}
+				for a in &s.attrs {
+					let (x, y) = br(a.span());
+					edits.push(Edit { start: x, end: y, parts: vec![], rule: "D1".into(), seq: 0 });
+					*ctx.rules.entry("D1".into()).or_insert(0) += 1;
+				}
+				for var in s.variants.iter() {
+					for a in &var.attrs {
+						let (x, y) = br(a.span());
+						edits.push(Edit { start: x, end: y, parts: vec![], rule: "D1".into(), seq: 0 });
+						*ctx.rules.entry("D1".into()).or_insert(0) += 1;
+					}
+					for f in var.fields.iter() {
+						for a in &f.attrs {
+							let (x, y) = br(a.span());
+							edits.push(Edit { start: x, end: y, parts: vec![], rule: "D1".into(), seq: 0 });
+							*ctx.rules.entry("D1".into()).or_insert(0) += 1;
+						}
+					}
+				}
+				ranges.push(whole);
+			}
+			Found::Const(c) => {
+				let whole = br(c.span());
+				src_span = whole;
+				for a in &c.attrs {
+					let (x, y) = br(a.span());
+					edits.push(Edit { start: x, end: y, parts: vec![], rule: "D1".into(), seq: 0 });
+				}
+				ranges.push(whole);
+			}
+			Found::Type(c) => {
+				let whole = br(c.span());
+				src_span = whole;
+				for a in &c.attrs {
+					let (x, y) = br(a.span());
+					edits.push(Edit { start: x, end: y, parts: vec![], rule: "D1".into(), seq: 0 });
+				}
+				ranges.push(whole);
+			}
+			Found::Macro(m) => {
+				let whole = br(m.span());
+				src_span = whole;
+				ranges.push(whole);
+			}
+		}
+		if !matches!(find_item(&file.items, &it.path), Some(Found::Fn(_)) | Some(Found::Impl(..))) {
+			apply_replaces(src, src_span.0, src_span.1, &it.replace, &mut edits, &mut ctx.rules, &mut seq);
+		}
+		ctx.out.buf.push_str(&pre);
+		let mut r = Renderer::new(src, file_idx, edits.clone());
+		let seg_start = ctx.out.segs.len();
+		for (a, b) in &ranges {
+			r.render(*a, *b, &mut ctx.out, true);
+			ctx.out.buf.push('\n');
+		}
+		ctx.out.buf.push_str(&post);
+		// every edit must have been applied exactly once
+		for (k, d) in r.done.iter().enumerate() {
+			if !*d {
+				let e = &r.edits[k];
+				// edits outside the rendered ranges (e.g. attrs on unselected methods) are fine
+				if ranges.iter().any(|(a, b)| e.start >= *a && e.end <= *b) {
+					die(&format!("internal: edit {:?} at {}..{} not applied (overlap)", e.rule, e.start, e.end));
+				}
+			}
+		}
+		// token accounting
+		let mut verb = 0;
+		for (os, oe, _, _) in &ctx.out.segs[seg_start..] {
+			verb += count_tokens(&ctx.out.buf[*os..*oe]);
+		}
+		let mut total = 0;
+		for (a, b) in &ranges {
+			total += count_tokens(&src[*a..*b]);
+		}
+		ctx.tok_verbatim += verb;
+		ctx.tok_src_total += total;
+		let line_of = |off: usize| src[..off].matches('\n').count() + 1;
+		let fns: Vec<serde_json::Value> = ctx.fn_meta[fn_meta_start..].to_vec();
+		ctx.items_meta.push(json!({
+			"file": it.file, "path": it.path,
+			"src_lines": [line_of(src_span.0), line_of(src_span.1)],
+			"out_start": out_start, "out_end": ctx.out.buf.len(),
+			"tokens_src": total, "tokens_verbatim": verb,
+			"fns": fns,
+		}));
+	}
+	let tail_start = ctx.out.buf.len();
+	if !cfg.tail.is_empty() {
+		ctx.out.buf.push_str("// ---- unit tail (hand-written: witness calls, lemmas)\n");
+		ctx.out.buf.push_str(&cfg.tail);
+		ctx.out.buf.push('\n');
+	}
+	ctx.out.buf.push_str("\n} // verus!\nfn main() {}\n");
+
+	std::fs::write(&out_path, &ctx.out.buf).unwrap_or_else(|e| die(&format!("{}: {}", out_path, e)));
+
+	// line table for out offsets
+	let line_of_out = |off: usize| ctx.out.buf[..off.min(ctx.out.buf.len())].matches('\n').count() + 1;
+	let marks: Vec<serde_json::Value> = ctx
+		.out
+		.marks
+		.iter()
+		.filter(|m| m.out_start != usize::MAX)
+		.map(|m| {
+			json!({"kind": m.kind, "fn": m.func, "label": m.label, "props": m.props, "text": m.text,
+			"out_start": m.out_start, "out_end": m.out_end, "out_line": line_of_out(m.out_start)})
+		})
+		.collect();
+	let segs: Vec<serde_json::Value> = ctx
+		.out
+		.segs
+		.iter()
+		.map(|(os, oe, fi, ss)| {
+			let (src, _) = sources.get(&ctx.files[*fi]).unwrap();
+			let sl = src[..*ss].matches('\n').count() + 1;
+			json!({"out_start": os, "out_end": oe, "file": ctx.files[*fi], "src_start": ss, "src_line": sl, "out_line": line_of_out(*os)})
+		})
+		.collect();
+	let meta = json!({
+		"unit": cfg.unit, "properties": cfg.properties, "mode": mode, "canary": canary,
+		"out": out_path, "prelude": prelude_ranges,
+		"spec_range": [spec_start, spec_end], "tail_start": tail_start,
+		"items": ctx.items_meta, "marks": marks, "segments": segs,
+		"rules": ctx.rules, "dropped_macro_calls": ctx.dropped_calls,
+		"tokens": {"src_total": ctx.tok_src_total, "verbatim": ctx.tok_verbatim},
+	});
+	std::fs::write(&meta_path, serde_json::to_string_pretty(&meta).unwrap()).unwrap();
+}
